@@ -120,7 +120,7 @@ func runC18(c *Ctx) {
 			}
 			c.sites++
 			// a loop over Headers containing a Push, on the same paths as the delete
-			paired := false
+			paired, partial := false, false
 			for _, b := range fn.Blocks {
 				if !isLoopHeader(b) {
 					continue
@@ -155,12 +155,103 @@ func runC18(c *Ctx) {
 						}
 					}
 				}
-				if overHeaders && pushes && (alwaysWith(ci, []ssa.Instruction{b.Instrs[0]}) || sameGuard(ci.Block(), b)) {
+				// … over ALL of them: the loop's index starts at a constant (range: -1, for: 0), not at a computed offset
+				whole := false
+				for _, in := range b.Instrs {
+					phi, isPhi := in.(*ssa.Phi)
+					if !isPhi {
+						break
+					}
+					if bt, isB := phi.Type().Underlying().(*types.Basic); !isB || bt.Info()&types.IsInteger == 0 {
+						continue
+					}
+					for i, e := range phi.Edges {
+						if !loop[b.Preds[i]] {
+							if n, isC := constInt(e); isC && (n == 0 || n == -1) {
+								whole = true
+							}
+						}
+					}
+				}
+				if overHeaders && pushes && !whole {
+					partial = true
+				}
+				if overHeaders && pushes && whole && (alwaysWith(ci, []ssa.Instruction{b.Instrs[0]}) || sameGuard(ci.Block(), b)) {
 					paired = true
 				}
 			}
-			c.Check(fmt.Sprintf("%s#pending-removal-%d", fname(fn), n), ci.Pos(), paired, ifelse(paired, "outstanding headers of the request are pushed back on the same paths", "a request is dropped from the pending pool without its outstanding headers going back to the task queue: those blocks are never fetched again and the sync stalls"))
+			c.Check(fmt.Sprintf("%s#pending-removal-%d", fname(fn), n), ci.Pos(), paired, ifelse(paired, "outstanding headers of the request are pushed back on the same paths", ifelse(partial, "the loop that pushes the request's headers back starts at a computed offset instead of covering the whole request: headers that were answered but rejected go back to no pool, nobody fetches them again and Results stays stuck behind the hole", "a request is dropped from the pending pool without its outstanding headers going back to the task queue: those blocks are never fetched again and the sync stalls")))
 			n++
+		}
+	}
+
+	// ------------------------------------------------------------ Y6
+	c.Rule("C18.Y6", "EXHAUSTIVE", "queue.Reset gives every per-cycle container of the queue a fresh value on every path (an unconditional store of a new map / slice / zero, or a Reset() call on the priority queue): nothing scheduled, pending, done or cached in one sync cycle is visible to the next")
+	c.Min(12)
+	{
+		rs := w.Fn(dlPkg, "queue", "Reset")
+		c.sawFunc(fname(rs))
+		perCycle := []string{"headerPendPool", "blockTaskPool", "blockTaskQueue", "blockPendPool", "blockDonePool", "receiptTaskPool", "receiptTaskQueue", "receiptPendPool", "receiptDonePool", "resultCache", "resultOffset", "headerHead", "closed"}
+		// exit block(s): every return
+		var rets []*ssa.BasicBlock
+		for _, b := range rs.Blocks {
+			if _, ok := b.Instrs[len(b.Instrs)-1].(*ssa.Return); ok && b != rs.Recover {
+				rets = append(rets, b)
+			}
+		}
+		for _, fnm := range perCycle {
+			f := w.Field(dlPkg, "queue", fnm)
+			c.sites++
+			ok, why := false, "Reset does not touch it"
+			for _, fw := range fieldWrites(rs) {
+				if fw.Field != f || fw.Kind != "store" {
+					continue
+				}
+				st := fw.Instr.(*ssa.Store)
+				fresh := false
+				switch v := stripConv(st.Val).(type) {
+				case *ssa.MakeMap, *ssa.MakeSlice, *ssa.Const:
+					fresh = true
+				case *ssa.UnOp:
+					// zero value loaded from a fresh local (common.Hash{})
+					if a, isA := v.X.(*ssa.Alloc); isA && isLocalAlloc(a) {
+						fresh = true
+					}
+				case *ssa.Alloc:
+					fresh = true
+				}
+				all := true
+				for _, r := range rets {
+					if !fw.Instr.Block().Dominates(r) {
+						all = false
+					}
+				}
+				switch {
+				case fresh && all:
+					ok = true
+				case !fresh:
+					why = "the value stored is not a fresh container"
+				default:
+					why = "the fresh value is stored on some paths only: under the other condition the previous cycle's contents stay"
+				}
+			}
+			// priority queues are reset in place
+			for _, ci := range callInstrs(rs) {
+				if o := calleeObj(ci); o != nil && o.Name() == "Reset" && recvName(o) == "Prque" {
+					if lf, _ := loadedField(stripConv(callRecv(ci))); lf == f {
+						all := true
+						for _, r := range rets {
+							if !ci.Block().Dominates(r) {
+								all = false
+							}
+						}
+						if all {
+							ok = true
+						}
+					}
+				}
+			}
+			c.Check(fname(rs)+"#"+fnm, rs.Pos(), ok, ifelse(ok, "re-initialised on every path", "queue."+fnm+" survives Reset ("+why+"): leftovers of an aborted sync are used by the next one — the importer gets an old header paired with a new body, or slots are released before they were downloaded"))
 		}
 	}
 
